@@ -156,6 +156,21 @@ def run_rt_property(mod, tier, seed, replay=None):
         f, mm = evaluate(mod, l, o, m)
         return bool(mm)
 
+    def shrink(line, want_fail=True):
+        """smallest case that still fails (or still mismatches); property modules with structured case lines bring their own shrinker"""
+        def pred(l):
+            o = one_impl(l)
+            m = vlib.run_one(runner, mod.model_line(l) if hasattr(mod, "model_line") else l)
+            f, mm = evaluate(mod, l, o, m)
+            if want_fail:
+                return bool(f) and match_known(mod, known, l, f) is None
+            return bool(mm)
+        if hasattr(mod, "shrink_line"):
+            return mod.shrink_line(line, pred)
+        hdr, ops = vlib.parse_case(line)
+        small = vlib.shrink_ops(hdr, ops, fails_fn if want_fail else mism_fn) if getattr(mod, "SHRINK", True) else ops
+        return vlib.case_line(hdr, small)
+
     known = vlib.known_findings(prop)
     reported_known = set()
     n_reported = 0
@@ -166,12 +181,11 @@ def run_rt_property(mod, tier, seed, replay=None):
         if kf is not None:
             if kf["id"] not in reported_known:
                 reported_known.add(kf["id"])
-                out.known.append("%s [%s] witness: %s" % (kf["what"], kf["id"], lines[i][:160]))
+                out.known.append("%s [%s] witness: %s" % (kf["what"], kf["id"], describe(mod, lines[i])))
             continue
         if n_reported >= 3:
             continue
-        small = vlib.shrink_ops(hdr, ops, fails_fn) if getattr(mod, "SHRINK", True) else ops
-        sl = vlib.case_line(hdr, small)
+        sl = shrink(lines[i])
         so = one_impl(sl)
         sm = vlib.run_one(runner, mod.model_line(sl) if hasattr(mod, "model_line") else sl)
         sf, _ = evaluate(mod, sl, so, sm)
@@ -179,10 +193,10 @@ def run_rt_property(mod, tier, seed, replay=None):
         if kf is not None:
             if kf["id"] not in reported_known:
                 reported_known.add(kf["id"])
-                out.known.append("%s [%s] witness: %s" % (kf["what"], kf["id"], sl[:160]))
+                out.known.append("%s [%s] witness: %s" % (kf["what"], kf["id"], describe(mod, sl)))
             continue
         rp = vlib.write_replay(prop, seed, tier, "input", {
-            "case": sl, "original_case": lines[i], "failures": sf or fails,
+            "case": sl, "decoded": describe(mod, sl, 4000), "original_case": lines[i], "failures": sf or fails,
             "observed": so, "expected_by_model": sm,
             "how_to_read": mod.__doc__})
         out.violations.append(("input", "; ".join((sf or fails)[:3]), rp, False))
@@ -197,10 +211,8 @@ def run_rt_property(mod, tier, seed, replay=None):
         mm = [i for i in mismatching if match_known(mod, known, lines[i], ["model-mismatch"]) is None]
         if mm:
             i = mm[0]
-            hdr, ops = vlib.parse_case(lines[i])
-            small = vlib.shrink_ops(hdr, ops, mism_fn) if getattr(mod, "SHRINK", True) else ops
-            sl = vlib.case_line(hdr, small)
-            broken.append(("correspondence", "model and implementation differ on: " + sl))
+            sl = shrink(lines[i], want_fail=False)
+            broken.append(("correspondence", "model and implementation differ on: " + sl[:2000]))
         if broken and not replay:
             # search phase: bigger budget, biased to the neighbourhood of the disagreement
             found = None
@@ -218,9 +230,7 @@ def run_rt_property(mod, tier, seed, replay=None):
                     break
             if found:
                 l, f, o, m = found
-                hdr, ops = vlib.parse_case(l)
-                small = vlib.shrink_ops(hdr, ops, fails_fn) if getattr(mod, "SHRINK", True) else ops
-                sl = vlib.case_line(hdr, small)
+                sl = shrink(l)
                 rp = vlib.write_replay(prop, seed, tier, "input", {"case": sl, "original_case": l, "failures": f,
                                                                   "observed": one_impl(sl), "broken": broken})
                 out.violations.append(("input", "; ".join(f[:3]), rp, False))
@@ -244,6 +254,15 @@ def run_rt_property(mod, tier, seed, replay=None):
     rc = 1 if out.violations else 0
     finish(mod, tier, seed, proof, stats, out, t0, rc)
     return rc
+
+
+def describe(mod, line, limit=160):
+    if hasattr(mod, "describe"):
+        try:
+            return mod.describe(line)[:limit]
+        except Exception:
+            pass
+    return line[:limit]
 
 
 def match_known(mod, known, line, fails):
